@@ -581,6 +581,33 @@ def g_catalogue(ctx, rng, i):
                 list(r)
         except Exception:
             pass
+    if dim == 3:
+        # histories on one collection object: polygons of space (planes off the origin) measured first, then asked for membership and
+        # intersections -- the collection must keep answering what its single polygons answer
+        import geometer as g
+
+        z1, z2 = int(rng.integers(1, 4)), int(rng.integers(-4, 0))
+        sq = lambda z, s: [[0, 0, z, 1], [s, 0, z, 1], [s, s, z, 1], [0, s, z, 1]]  # noqa: E731
+        pc = g.PolygonCollection(np.array([sq(z1, 2), sq(z2, 3), [[1, 0, 0, 1], [1, 2, 0, 1], [1, 2, 2, 1], [1, 0, 2, 1]]]))
+        pts = g.PointCollection(np.array([[1, 1, z1, 1], [1, 1, z2, 1], [1, 1, 1, 1]]))
+        ln = g.Line(g.Point(1.5, 0.5, -9), g.Point(1.5, 0.5, 9))
+        # a segment inside the plane of one face of a cuboid whose supporting line leaves through other faces (collection of faces
+        # against a single segment: each face answers what the single face answers)
+        s_ = int(rng.integers(2, 5))
+        cube = g.Cuboid(g.Point(0, 0, 0), g.Point(s_, 0, 0), g.Point(0, s_, 0), g.Point(0, 0, s_))
+        segs = [g.Segment(g.Point(0.5, 0.5, 0), g.Point(0.5, s_ + 1, 0)), g.Segment(g.Point(0.25, 0.25, 0), g.Point(0.5, 0.75, 0)),
+                g.Segment(g.Point(0.5, 0.5, 0.5), g.Point(0.5, 0.5, s_ + 2))]
+        for sg in segs:
+            for step in (lambda: cube.faces.intersect(sg), lambda: cube.intersect(sg)):
+                try:
+                    step()
+                except Exception:
+                    pass
+        for step in (lambda: pc.area, lambda: pc.contains(pts), lambda: pc.intersect(ln), lambda: pc.area, lambda: pc.contains(pts), lambda: pc.vertices, lambda: pc.intersect(ln)):
+            try:
+                step()
+            except Exception:
+                pass
 
 
 def install(ctx):
